@@ -148,6 +148,14 @@ theorem step_BF (cfg : Cfg) (w : World) (op : Op) (h1 : ∀ b, op ≠ .bodyStart
           · exact ⟨rfl, rfl⟩
       · exact ⟨rfl, rfl⟩
   | procFlag k x => exact ⟨rfl, rfl⟩
+  | thrWait f k => exact ⟨rfl, rfl⟩
+  | thrDone k v e =>
+    simp only [step, thrDone]
+    split
+    · exact BF.refl _
+    · split
+      · apply schedule_BF'; exact ⟨rfl, rfl⟩
+      · exact ⟨rfl, rfl⟩
   | childEnter f => exact ⟨rfl, rfl⟩
   | childLeave f =>
     simp only [step]
